@@ -155,11 +155,11 @@ func VerifReplicateFew(n int, dsts int) {
 // (the values per input are the digits of code in the given base: base 2 - at most one value per
 // input - in the quick tier, base 3 for 4 and some 5-input patterns in the thorough tier)
 // args: inputs k, code, base
-//verif:case C12 quick VerifChansMergePrefilled 4 0..15 2
-//verif:case C12 thorough VerifChansMergePrefilled 4 0..80 3
-//verif:case C12 quick VerifChansMergePrefilled 5 0..31 2
-//verif:case C12 thorough VerifChansMergePrefilled 6 0..62 2
-//verif:case C12 thorough VerifChansMergePrefilled 5 100..120 3
+//verif:case C12 quick VerifChansMergePrefilled 4 0..15 2 @repeat=400
+//verif:case C12 thorough VerifChansMergePrefilled 4 0..80 3 @repeat=400
+//verif:case C12 quick VerifChansMergePrefilled 5 0..31 2 @repeat=400
+//verif:case C12 thorough VerifChansMergePrefilled 6 0..62 2 @repeat=400
+//verif:case C12 thorough VerifChansMergePrefilled 5 100..120 3 @repeat=400
 func VerifChansMergePrefilled(k int, code int, base int) {
 	cnt := make([]int, k)
 	total := 0
